@@ -95,6 +95,215 @@ def byte_store_functions(mod, cg, fields):
     return direct, via
 
 
+def name_path_rules(rep, ctx, mod, cg, prefix=""):
+    """the rules of C11 (file names free of '/', sanitiser-last, collapse_path conformance); also run inside C10, whose confinement argument
+    rests on them (a name with a separator or a path with '..' is joined to the extraction directory as it stands)"""
+    # ---- R1 filename provenance ------------------------------------------------------------------------------
+    rid = rep.rule(prefix + "R1", "every store to LHAFileHeader.filename is NULL, a '/'-free buffer, the tail after the last '/', or is followed by split_header_filename", 4)
+    sp = rep.need(rid, mod.fn("split_header_filename"), "function split_header_filename")
+    nstores = 0
+    for fn in mod.defined():
+        sts = stores_to_field(mod, HDR, "filename", [fn])
+        if not sts:
+            continue
+        F = ctx.facts(fn)
+        M = Matcher(fn)
+        loops = None
+        for st in sts:
+            nstores += 1
+            v = st.ops[0]
+            inst = "%s: filename = %s" % (fn.cname, describe(fn, v, 2))
+            if is_const(v) and const_val(v) == 0:
+                rep.ok(rid, inst + " (NULL)", None, st.where())
+                continue
+            # tail after the last '/'
+            if M.match(("call", "strdup", [("gep", ("call", "strrchr", [("load", ("field", HDR, "filename", ANY)), SLASH]), [1])]), v, {}) is not None:
+                rep.ok(rid, inst + " (tail after the last '/')", None, st.where())
+                continue
+            # followed by split_header_filename on every path to a successful return
+            after = blocks_reachable_from(fn, [st.block.id])
+            splits = [c for c in fn.calls("split_header_filename") if c.block.id in after]
+            if splits:
+                cut = set()
+                for c in splits:
+                    cut |= {(c.block.id, s) for s in c.block.succs}
+                    if not c.block.succs:
+                        cut.add((c.block.id, "ret"))
+                bad = []
+                for vv, pb, b in success_edges(F, fn):
+                    tgt = pb if pb is not None else b
+                    if any(c.block.id == tgt for c in splits):
+                        continue
+                    if tgt == st.block.id or F.reaches_avoiding(st.block.id, tgt, cut):
+                        bad.append(tgt)
+                rep.check(rid, not bad, inst + " (then split_header_filename on every successful path)", st.where(),
+                          "a successful return (bb%s) is reachable from the store without split_header_filename" % bad if bad else None,
+                          function=fn.cname, obj="filename-store")
+                continue
+            # a buffer sanitised by a byte loop in this function
+            loops = loops if loops is not None else find_byte_loops(fn, F)
+            ok = False
+            for bl in loops:
+                if bl.base is not None and M.equiv(M.strip(bl.base, ("bitcast",)), M.strip(v, ("bitcast",))) and bl.start_ok and bl.step_ok and bl.exit == "nul" \
+                        and bl.unvisited_ok and SLASH not in bl.final_values and fn.dominates(bl.loop["header"], st.block.id):
+                    ok = True
+                    rep.sample({"loop": fn.cname, "paths": bl.path_detail, "final_values": _ranges(bl.final_values)})
+            rep.check(rid, ok, inst + " (buffer left without '/' by a loop over all its bytes)", st.where(),
+                      "no sanitising loop over the stored buffer proves the absence of '/'", function=fn.cname, obj="filename-store")
+    if sp:
+        M = Matcher(sp)
+        # post-condition of split: strrchr(filename, '/') is what decides; on NULL nothing contains '/'
+        calls = list(sp.calls("strrchr"))
+        rep.check(rid, len(calls) == 1 and M.match(("load", ("field", HDR, "filename", ("param", 0))), calls[0].ops[0], {}) is not None and const_val(calls[0].ops[1]) == SLASH,
+                  "split_header_filename searches the LAST '/' of header->filename", sp.file, None, function=sp.cname, obj="strrchr")
+        F = ctx.facts(sp)
+        for st in stores_to_field(mod, HDR, "filename", [sp]):
+            guarded_site(rep, rid, ctx, st, [("a '/' was found", ("ne", ("call", "strrchr", [ANY, SLASH]), 0))])
+        # path gets the old buffer cut right after that '/'
+        cutst = [s for s in sp.insts() if s.op == "store" and s.size == 1 and is_const(s.ops[0]) and const_val(s.ops[0]) == 0 and
+                 M.match(("gep", ("call", "strrchr", [ANY, SLASH]), [1]), s.ops[1], {}) is not None]
+        rep.check(rid, len(cutst) == 1, "the old buffer is terminated right after the last '/' (it becomes the path)", sp.file, None, function=sp.cname, obj="cut")
+    rep.check(rid, nstores >= 4, "filename stores found", "lib/", "%d" % nstores, function="filename", obj="count")
+
+    # ---- R1b other byte writers -----------------------------------------------------------------------------------
+    rid = rep.rule(prefix + "R1b", "bytes of a file name / path are written only by the listed normalisation functions", 3)
+    direct, via = byte_store_functions(mod, cg, ("filename", "path"))
+    allowed = {
+        ("process_level0_path", "filename"): "backslash -> '/' before the split (R2)",
+        ("split_header_filename", "filename"): "NUL written after the last '/' (the prefix becomes the path)",
+        ("fix_msdos_allcaps", "filename"): "assumption A-tolower",
+        ("fix_msdos_allcaps", "path"): "runs before collapse_path (R3)",
+        ("collapse_path", "path"): "the sanitiser itself",
+    }
+    seenw = set()
+    for (fname, f), sts in list(direct.items()) + list(via.items()):
+        cn = mod.functions[fname].cname
+        seenw.add((cn, f))
+        if (cn, f) in allowed:
+            if allowed[(cn, f)].startswith("assumption"):
+                rep.assumed(rid, "%s writes %s bytes" % (cn, f), "A-tolower", "libc tolower() maps only 'A'-'Z' (to 'a'-'z'): it cannot introduce '/' into a file name", sts[0].where())
+            else:
+                rep.ok(rid, "%s writes %s bytes: %s" % (cn, f, allowed[(cn, f)]), None, sts[0].where())
+        else:
+            rep.violation(rid, "%s writes bytes of header->%s" % (cn, f), sts[0].where(), "a function outside the listed normalisers modifies name/path bytes",
+                          function=cn, obj=f)
+
+    # ---- R2 separator loops ------------------------------------------------------------------------------------------
+    rid = rep.rule(prefix + "R2", "separator normalisation loops visit every byte of the buffer; the path extended header always ends with a separator", 4)
+    pl = rep.need(rid, mod.fn("process_level0_path"), "function process_level0_path")
+    if pl:
+        F = ctx.facts(pl)
+        M = Matcher(pl)
+        loops = find_byte_loops(pl, F)
+        ok = [bl for bl in loops if bl.start_ok and bl.step_ok and bl.exit == "counted" and bl.unvisited_ok and BSLASH not in bl.final_values
+              and M.strip(bl.bound) == ("v", pl.params[2].id)]
+        rep.check(rid, len(ok) == 1, "in-header names: every byte below data_len has '\\\\' replaced (by '/')", pl.file,
+                  "%s" % [(_ranges(b.final_values), b.exit) for b in loops], function=pl.cname, obj="backslash")
+        for bl in ok:
+            rep.check(rid, any(p["stores"] == SLASH and p["admits"] == "0x5c" for p in bl.path_detail), "the replacement byte is '/'", pl.file, None, function=pl.cname, obj="repl")
+            rep.sample({"loop": pl.cname, "paths": bl.path_detail})
+    pd = rep.need(rid, mod.fn("ext_header_path_decoder"), "function ext_header_path_decoder")
+    if pd:
+        F = ctx.facts(pd)
+        M = Matcher(pd)
+        loops = find_byte_loops(pd, F)
+        ok = [bl for bl in loops if bl.start_ok and bl.step_ok and bl.exit == "counted" and bl.unvisited_ok and 0xFF not in bl.final_values]
+        rep.check(rid, len(ok) == 1, "path header: every byte below the (possibly extended) length has 0xFF replaced (by '/')", pd.file,
+                  "%s" % [(_ranges(b.final_values), b.exit) for b in loops], function=pd.cname, obj="ff")
+        for bl in ok:
+            rep.check(rid, any(p["stores"] == SLASH and p["admits"] == "0xff" for p in bl.path_detail), "the replacement byte is '/'", pd.file, None, function=pd.cname, obj="repl")
+            # bound: data_len, or data_len + 1 when the trailing separator was appended
+            vals = set()
+            for s, fs in F.sources(bl.bound):
+                if M.strip(s) == ("v", pd.params[2].id):
+                    vals.add("len")
+                elif M.match(("bin", "add", ("param", 2), 1), s, {}) is not None:
+                    vals.add("len+1")
+                else:
+                    vals.add(describe(pd, s))
+            rep.check(rid, vals == {"len", "len+1"}, "loop bound is data_len, or data_len + 1 after appending the separator", pd.file, "%s" % sorted(vals), function=pd.cname, obj="bound")
+        # trailing separator ensured: if last byte != 0xff then buf[len] = 0xff, buf[len+1] = 0
+        st = [s for s in pd.insts() if s.op == "store" and s.size == 1 and is_const(s.ops[0]) and (const_val(s.ops[0]) & 0xFF) == 0xFF]
+        okt = len(st) == 1 and M.match(("gep", ANY, [("param", 2)]), st[0].ops[1], {}) is not None
+        if okt:
+            f, _ = M.find_fact(("ne", ("load", ("gep", ANY, [("bin", "sub", ("param", 2), 1)])), 0xFF), F.at_inst(st[0]))
+            okt = f is not None
+        rep.check(rid, okt, "a separator is appended when the last byte is not 0xFF", pd.file, None, function=pd.cname, obj="trailing")
+
+    # ---- R3 sanitiser last ------------------------------------------------------------------------------------------------
+    rid = rep.rule(prefix + "R3", "every header returned with a non-NULL path went through collapse_path(header->path)", 1)
+    rd = rep.need(rid, mod.fn("lha_file_header_read"), "function lha_file_header_read")
+    if rd:
+        F = ctx.facts(rd)
+        M = Matcher(rd)
+        pathv = ("load", ("field", HDR, "path", ANY))
+        cps = [c for c in rd.calls("collapse_path") if M.match(pathv, c.ops[0], {}) is not None]
+        rep.check(rid, len(cps) == 1, "collapse_path(header->path) is called once", rd.file, "%d call sites" % len(cps), function=rd.cname, obj="call")
+        if cps:
+            cp = cps[0]
+            # cut: the edge 'path == NULL' taken at the guard of that call, and the call block itself
+            guard_edges = set()
+            for e in F.edges_with_fact(("eq", pathv, 0)):
+                # only the guard of the collapse call: its other branch leads to the call block
+                if cp.block.id in rd.blocks[e[0]].succs:
+                    guard_edges.add(e)
+            cut = set(guard_edges) | {(cp.block.id, s) for s in cp.block.succs}
+            for v, pb, b in success_edges(F, rd):
+                tgt = pb if pb is not None else b
+                rep.check(rid, not F.reaches_avoiding(0, tgt, cut), "successful return crosses collapse_path or 'path == NULL'", "%s:%s" % (rd.file, rd.blocks[tgt].term.line()),
+                          "a header can be returned with a path that never went through collapse_path", function=rd.cname, obj="sanitiser-last")
+            rep.check(rid, len(guard_edges) <= 1, "the only way around the call (if any) is 'path == NULL'", cp.where(), "%d guard edges" % len(guard_edges), function=rd.cname, obj="guard")
+            # nothing after it writes the path field or path bytes
+            rid2 = rep.rule(prefix + "R3b", "after collapse_path nothing that can write the path field or the bytes of a path runs", 3)
+            after = blocks_reachable_from(rd, rd.blocks[cp.block.id].succs)
+            writers = cg.field_writers(HDR, "path") | {fn_ for (fn_, f) in list(direct) + list(via) if f == "path"}
+            later = [i for i in rd.blocks[cp.block.id].insts if i.idx > cp.idx]
+            for b in sorted(after):
+                later += rd.blocks[b].insts
+            n = 0
+            for ins in later:
+                if ins.op == "call" and ins.callee and not ins.callee.startswith("llvm.dbg"):
+                    n += 1
+                    hit = cg.reachable([ins.callee]) & writers
+                    # lha_file_header_free on the failure path is fine: it releases, does not return the header
+                    if mod.callee_cname(ins) == "lha_file_header_free":
+                        rep.ok(rid2, "call lha_file_header_free after the sanitiser (failure path)", None, ins.where())
+                        continue
+                    rep.check(rid2, not hit, "call %s after the sanitiser cannot write the path" % mod.callee_cname(ins), ins.where(),
+                              "reaches path writers %s" % sorted(hit) if hit else None, function=rd.cname, obj=mod.callee_cname(ins))
+                if any(ins is w for w in direct.get((rd.name, "path"), [])):
+                    rep.violation(rid2, "bytes of header->path written after the sanitiser", ins.where(), "a store (or libc writer) through the path pointer runs after collapse_path: "
+                                  "whatever it leaves in the path is returned unsanitised", function=rd.cname, obj="path-bytes")
+                if ins.op == "store" and (ins in stores_to_field(mod, HDR, "path", [rd])):
+                    rep.violation(rid2, "store to header->path after the sanitiser", ins.where(), "direct store", function=rd.cname, obj="path-store")
+        # the header is returned by no other function of the library without passing here: lha_file_header_read is the only producer
+        prod = {f.cname for f in mod.defined() for c in f.insts() if c.op == "call" and mod.callee_cname(c) in ("calloc", "malloc", "realloc") and
+                "LHAFileHeader" in (f.ret or "") }
+    rid = rep.rule(prefix + "R5", "collapse_path conforms to the component transducer: per-iteration moves copy / accept / drop / pop, accept guarded against '', '.' and '..', pop lands on a component boundary", 10)
+    cp = rep.need(rid, mod.fn("collapse_path"), "function collapse_path")
+    if cp:
+        from ..scan import check_filter
+        ok, problems, stats = check_filter(cp, ctx.facts(cp))
+        rep.extra["collapse_path_moves"] = stats
+        for w_, text in problems:
+            rep.violation(rid, "collapse_path: %s" % text, w_, "the in-place filter can leave an empty, '.' or '..' component (or the analysis cannot show that it does not)",
+                          function="collapse_path", obj="move")
+        if ok:
+            for k in ("copy", "accept", "drop", "pop", "exit"):
+                for _ in range(stats.get(k, 0)):
+                    rep.ok(rid, "collapse_path: %s path conforms" % k, None, "%s:%s" % (cp.file, cp.line))
+    rid = rep.rule(prefix + "R4", "lha_file_header_read is the only function that creates headers", 1)
+    creators = set()
+    for f in mod.defined():
+        for c in f.insts():
+            if c.op == "call" and mod.callee_cname(c) in ("calloc", "malloc"):
+                for u in f.users(c.id):
+                    if u.op == "bitcast" and "LHAFileHeader" in u.ty:
+                        creators.add(f.cname)
+    rep.check(rid, creators == {"lha_file_header_read"}, "header objects are created only in lha_file_header_read", "lib/", "creators %s" % sorted(creators),
+              function="LHAFileHeader", obj="creators")
+
+
 def run(tier, seed):
     rep = Report("C11", tier, "other",
                  "Static provenance and byte-map analysis of the name/path pipeline: every value stored to the file-name field is "
@@ -113,208 +322,5 @@ def run(tier, seed):
         cg = CallGraph(mod)
         rep.analysed = {"view": "plain", "functions": len(mod.defined())}
 
-        # ---- R1 filename provenance ------------------------------------------------------------------------------
-        rid = rep.rule("R1", "every store to LHAFileHeader.filename is NULL, a '/'-free buffer, the tail after the last '/', or is followed by split_header_filename", 4)
-        sp = rep.need(rid, mod.fn("split_header_filename"), "function split_header_filename")
-        nstores = 0
-        for fn in mod.defined():
-            sts = stores_to_field(mod, HDR, "filename", [fn])
-            if not sts:
-                continue
-            F = ctx.facts(fn)
-            M = Matcher(fn)
-            loops = None
-            for st in sts:
-                nstores += 1
-                v = st.ops[0]
-                inst = "%s: filename = %s" % (fn.cname, describe(fn, v, 2))
-                if is_const(v) and const_val(v) == 0:
-                    rep.ok(rid, inst + " (NULL)", None, st.where())
-                    continue
-                # tail after the last '/'
-                if M.match(("call", "strdup", [("gep", ("call", "strrchr", [("load", ("field", HDR, "filename", ANY)), SLASH]), [1])]), v, {}) is not None:
-                    rep.ok(rid, inst + " (tail after the last '/')", None, st.where())
-                    continue
-                # followed by split_header_filename on every path to a successful return
-                after = blocks_reachable_from(fn, [st.block.id])
-                splits = [c for c in fn.calls("split_header_filename") if c.block.id in after]
-                if splits:
-                    cut = set()
-                    for c in splits:
-                        cut |= {(c.block.id, s) for s in c.block.succs}
-                        if not c.block.succs:
-                            cut.add((c.block.id, "ret"))
-                    bad = []
-                    for vv, pb, b in success_edges(F, fn):
-                        tgt = pb if pb is not None else b
-                        if any(c.block.id == tgt for c in splits):
-                            continue
-                        if tgt == st.block.id or F.reaches_avoiding(st.block.id, tgt, cut):
-                            bad.append(tgt)
-                    rep.check(rid, not bad, inst + " (then split_header_filename on every successful path)", st.where(),
-                              "a successful return (bb%s) is reachable from the store without split_header_filename" % bad if bad else None,
-                              function=fn.cname, obj="filename-store")
-                    continue
-                # a buffer sanitised by a byte loop in this function
-                loops = loops if loops is not None else find_byte_loops(fn, F)
-                ok = False
-                for bl in loops:
-                    if bl.base is not None and M.equiv(M.strip(bl.base, ("bitcast",)), M.strip(v, ("bitcast",))) and bl.start_ok and bl.step_ok and bl.exit == "nul" \
-                            and bl.unvisited_ok and SLASH not in bl.final_values and fn.dominates(bl.loop["header"], st.block.id):
-                        ok = True
-                        rep.sample({"loop": fn.cname, "paths": bl.path_detail, "final_values": _ranges(bl.final_values)})
-                rep.check(rid, ok, inst + " (buffer left without '/' by a loop over all its bytes)", st.where(),
-                          "no sanitising loop over the stored buffer proves the absence of '/'", function=fn.cname, obj="filename-store")
-        if sp:
-            M = Matcher(sp)
-            # post-condition of split: strrchr(filename, '/') is what decides; on NULL nothing contains '/'
-            calls = list(sp.calls("strrchr"))
-            rep.check(rid, len(calls) == 1 and M.match(("load", ("field", HDR, "filename", ("param", 0))), calls[0].ops[0], {}) is not None and const_val(calls[0].ops[1]) == SLASH,
-                      "split_header_filename searches the LAST '/' of header->filename", sp.file, None, function=sp.cname, obj="strrchr")
-            F = ctx.facts(sp)
-            for st in stores_to_field(mod, HDR, "filename", [sp]):
-                guarded_site(rep, rid, ctx, st, [("a '/' was found", ("ne", ("call", "strrchr", [ANY, SLASH]), 0))])
-            # path gets the old buffer cut right after that '/'
-            cutst = [s for s in sp.insts() if s.op == "store" and s.size == 1 and is_const(s.ops[0]) and const_val(s.ops[0]) == 0 and
-                     M.match(("gep", ("call", "strrchr", [ANY, SLASH]), [1]), s.ops[1], {}) is not None]
-            rep.check(rid, len(cutst) == 1, "the old buffer is terminated right after the last '/' (it becomes the path)", sp.file, None, function=sp.cname, obj="cut")
-        rep.check(rid, nstores >= 4, "filename stores found", "lib/", "%d" % nstores, function="filename", obj="count")
-
-        # ---- R1b other byte writers -----------------------------------------------------------------------------------
-        rid = rep.rule("R1b", "bytes of a file name / path are written only by the listed normalisation functions", 3)
-        direct, via = byte_store_functions(mod, cg, ("filename", "path"))
-        allowed = {
-            ("process_level0_path", "filename"): "backslash -> '/' before the split (R2)",
-            ("split_header_filename", "filename"): "NUL written after the last '/' (the prefix becomes the path)",
-            ("fix_msdos_allcaps", "filename"): "assumption A-tolower",
-            ("fix_msdos_allcaps", "path"): "runs before collapse_path (R3)",
-            ("collapse_path", "path"): "the sanitiser itself",
-        }
-        seenw = set()
-        for (fname, f), sts in list(direct.items()) + list(via.items()):
-            cn = mod.functions[fname].cname
-            seenw.add((cn, f))
-            if (cn, f) in allowed:
-                if allowed[(cn, f)].startswith("assumption"):
-                    rep.assumed(rid, "%s writes %s bytes" % (cn, f), "A-tolower", "libc tolower() maps only 'A'-'Z' (to 'a'-'z'): it cannot introduce '/' into a file name", sts[0].where())
-                else:
-                    rep.ok(rid, "%s writes %s bytes: %s" % (cn, f, allowed[(cn, f)]), None, sts[0].where())
-            else:
-                rep.violation(rid, "%s writes bytes of header->%s" % (cn, f), sts[0].where(), "a function outside the listed normalisers modifies name/path bytes",
-                              function=cn, obj=f)
-
-        # ---- R2 separator loops ------------------------------------------------------------------------------------------
-        rid = rep.rule("R2", "separator normalisation loops visit every byte of the buffer; the path extended header always ends with a separator", 4)
-        pl = rep.need(rid, mod.fn("process_level0_path"), "function process_level0_path")
-        if pl:
-            F = ctx.facts(pl)
-            M = Matcher(pl)
-            loops = find_byte_loops(pl, F)
-            ok = [bl for bl in loops if bl.start_ok and bl.step_ok and bl.exit == "counted" and bl.unvisited_ok and BSLASH not in bl.final_values
-                  and M.strip(bl.bound) == ("v", pl.params[2].id)]
-            rep.check(rid, len(ok) == 1, "in-header names: every byte below data_len has '\\\\' replaced (by '/')", pl.file,
-                      "%s" % [(_ranges(b.final_values), b.exit) for b in loops], function=pl.cname, obj="backslash")
-            for bl in ok:
-                rep.check(rid, any(p["stores"] == SLASH and p["admits"] == "0x5c" for p in bl.path_detail), "the replacement byte is '/'", pl.file, None, function=pl.cname, obj="repl")
-                rep.sample({"loop": pl.cname, "paths": bl.path_detail})
-        pd = rep.need(rid, mod.fn("ext_header_path_decoder"), "function ext_header_path_decoder")
-        if pd:
-            F = ctx.facts(pd)
-            M = Matcher(pd)
-            loops = find_byte_loops(pd, F)
-            ok = [bl for bl in loops if bl.start_ok and bl.step_ok and bl.exit == "counted" and bl.unvisited_ok and 0xFF not in bl.final_values]
-            rep.check(rid, len(ok) == 1, "path header: every byte below the (possibly extended) length has 0xFF replaced (by '/')", pd.file,
-                      "%s" % [(_ranges(b.final_values), b.exit) for b in loops], function=pd.cname, obj="ff")
-            for bl in ok:
-                rep.check(rid, any(p["stores"] == SLASH and p["admits"] == "0xff" for p in bl.path_detail), "the replacement byte is '/'", pd.file, None, function=pd.cname, obj="repl")
-                # bound: data_len, or data_len + 1 when the trailing separator was appended
-                vals = set()
-                for s, fs in F.sources(bl.bound):
-                    if M.strip(s) == ("v", pd.params[2].id):
-                        vals.add("len")
-                    elif M.match(("bin", "add", ("param", 2), 1), s, {}) is not None:
-                        vals.add("len+1")
-                    else:
-                        vals.add(describe(pd, s))
-                rep.check(rid, vals == {"len", "len+1"}, "loop bound is data_len, or data_len + 1 after appending the separator", pd.file, "%s" % sorted(vals), function=pd.cname, obj="bound")
-            # trailing separator ensured: if last byte != 0xff then buf[len] = 0xff, buf[len+1] = 0
-            st = [s for s in pd.insts() if s.op == "store" and s.size == 1 and is_const(s.ops[0]) and (const_val(s.ops[0]) & 0xFF) == 0xFF]
-            okt = len(st) == 1 and M.match(("gep", ANY, [("param", 2)]), st[0].ops[1], {}) is not None
-            if okt:
-                f, _ = M.find_fact(("ne", ("load", ("gep", ANY, [("bin", "sub", ("param", 2), 1)])), 0xFF), F.at_inst(st[0]))
-                okt = f is not None
-            rep.check(rid, okt, "a separator is appended when the last byte is not 0xFF", pd.file, None, function=pd.cname, obj="trailing")
-
-        # ---- R3 sanitiser last ------------------------------------------------------------------------------------------------
-        rid = rep.rule("R3", "every header returned with a non-NULL path went through collapse_path(header->path)", 1)
-        rd = rep.need(rid, mod.fn("lha_file_header_read"), "function lha_file_header_read")
-        if rd:
-            F = ctx.facts(rd)
-            M = Matcher(rd)
-            pathv = ("load", ("field", HDR, "path", ANY))
-            cps = [c for c in rd.calls("collapse_path") if M.match(pathv, c.ops[0], {}) is not None]
-            rep.check(rid, len(cps) == 1, "collapse_path(header->path) is called once", rd.file, "%d call sites" % len(cps), function=rd.cname, obj="call")
-            if cps:
-                cp = cps[0]
-                # cut: the edge 'path == NULL' taken at the guard of that call, and the call block itself
-                guard_edges = set()
-                for e in F.edges_with_fact(("eq", pathv, 0)):
-                    # only the guard of the collapse call: its other branch leads to the call block
-                    if cp.block.id in rd.blocks[e[0]].succs:
-                        guard_edges.add(e)
-                cut = set(guard_edges) | {(cp.block.id, s) for s in cp.block.succs}
-                for v, pb, b in success_edges(F, rd):
-                    tgt = pb if pb is not None else b
-                    rep.check(rid, not F.reaches_avoiding(0, tgt, cut), "successful return crosses collapse_path or 'path == NULL'", "%s:%s" % (rd.file, rd.blocks[tgt].term.line()),
-                              "a header can be returned with a path that never went through collapse_path", function=rd.cname, obj="sanitiser-last")
-                rep.check(rid, len(guard_edges) <= 1, "the only way around the call (if any) is 'path == NULL'", cp.where(), "%d guard edges" % len(guard_edges), function=rd.cname, obj="guard")
-                # nothing after it writes the path field or path bytes
-                rid2 = rep.rule("R3b", "after collapse_path nothing that can write the path field or the bytes of a path runs", 3)
-                after = blocks_reachable_from(rd, rd.blocks[cp.block.id].succs)
-                writers = cg.field_writers(HDR, "path") | {fn_ for (fn_, f) in list(direct) + list(via) if f == "path"}
-                later = [i for i in rd.blocks[cp.block.id].insts if i.idx > cp.idx]
-                for b in sorted(after):
-                    later += rd.blocks[b].insts
-                n = 0
-                for ins in later:
-                    if ins.op == "call" and ins.callee and not ins.callee.startswith("llvm.dbg"):
-                        n += 1
-                        hit = cg.reachable([ins.callee]) & writers
-                        # lha_file_header_free on the failure path is fine: it releases, does not return the header
-                        if mod.callee_cname(ins) == "lha_file_header_free":
-                            rep.ok(rid2, "call lha_file_header_free after the sanitiser (failure path)", None, ins.where())
-                            continue
-                        rep.check(rid2, not hit, "call %s after the sanitiser cannot write the path" % mod.callee_cname(ins), ins.where(),
-                                  "reaches path writers %s" % sorted(hit) if hit else None, function=rd.cname, obj=mod.callee_cname(ins))
-                    if any(ins is w for w in direct.get((rd.name, "path"), [])):
-                        rep.violation(rid2, "bytes of header->path written after the sanitiser", ins.where(), "a store (or libc writer) through the path pointer runs after collapse_path: "
-                                      "whatever it leaves in the path is returned unsanitised", function=rd.cname, obj="path-bytes")
-                    if ins.op == "store" and (ins in stores_to_field(mod, HDR, "path", [rd])):
-                        rep.violation(rid2, "store to header->path after the sanitiser", ins.where(), "direct store", function=rd.cname, obj="path-store")
-            # the header is returned by no other function of the library without passing here: lha_file_header_read is the only producer
-            prod = {f.cname for f in mod.defined() for c in f.insts() if c.op == "call" and mod.callee_cname(c) in ("calloc", "malloc", "realloc") and
-                    "LHAFileHeader" in (f.ret or "") }
-        rid = rep.rule("R5", "collapse_path conforms to the component transducer: per-iteration moves copy / accept / drop / pop, accept guarded against '', '.' and '..', pop lands on a component boundary", 10)
-        cp = rep.need(rid, mod.fn("collapse_path"), "function collapse_path")
-        if cp:
-            from ..scan import check_filter
-            ok, problems, stats = check_filter(cp, ctx.facts(cp))
-            rep.extra["collapse_path_moves"] = stats
-            for w_, text in problems:
-                rep.violation(rid, "collapse_path: %s" % text, w_, "the in-place filter can leave an empty, '.' or '..' component (or the analysis cannot show that it does not)",
-                              function="collapse_path", obj="move")
-            if ok:
-                for k in ("copy", "accept", "drop", "pop", "exit"):
-                    for _ in range(stats.get(k, 0)):
-                        rep.ok(rid, "collapse_path: %s path conforms" % k, None, "%s:%s" % (cp.file, cp.line))
-        rid = rep.rule("R4", "lha_file_header_read is the only function that creates headers", 1)
-        creators = set()
-        for f in mod.defined():
-            for c in f.insts():
-                if c.op == "call" and mod.callee_cname(c) in ("calloc", "malloc"):
-                    for u in f.users(c.id):
-                        if u.op == "bitcast" and "LHAFileHeader" in u.ty:
-                            creators.add(f.cname)
-        rep.check(rid, creators == {"lha_file_header_read"}, "header objects are created only in lha_file_header_read", "lib/", "creators %s" % sorted(creators),
-                  function="LHAFileHeader", obj="creators")
+        name_path_rules(rep, ctx, mod, cg)
     return rep.finish(seed)
